@@ -85,7 +85,8 @@ pub fn plan_of(d: &PlanDesc) -> Plan {
         PlanDesc::DocRow { which } => {
             let v = match which {
                 0 => Variant::UniqueId(UniqueId::new(7, 8, 9)),
-                1 => Variant::Faces(Faces::from_bits(0b000110).unwrap()),
+                1 | 3 => Variant::Faces(Faces::from_bits(0b000110).unwrap()),
+                4 => Variant::Axes(rbx_dom_weak::types::Axes::from_bits(0b101).unwrap()),
                 _ => Variant::Content(Content::from_uri("rbxassetid://5")),
             };
             Plan { nodes: vec![PNode { class: "ZzUnknownThing".into(), name: "row".into(), parent: None, props: vec![("V".into(), PVal::V(v))] }], roots: RootSel::Nodes(vec![]) }
@@ -456,6 +457,11 @@ pub fn cases(tier: Tier) -> Vec<Case04> {
             out.push(Case04 { plan: pd, enc: e, dim: "float32-for-float64".into() });
         }
     }
+    for which in 3..5u8 {
+        let pd = PlanDesc::DocRow { which };
+        let e = enc::base_encoding(&plan_of(&pd));
+        out.push(Case04 { plan: pd, enc: e, dim: "doc-row-spare-bits".into() });
+    }
     for which in 0..3u8 {
         for imp in [true, false] {
             let pd = PlanDesc::DocRow { which };
@@ -526,10 +532,29 @@ pub fn cases(tier: Tier) -> Vec<Case04> {
 pub fn judge(c: &Case04) -> Vec<(String, String)> {
     let mut out = Vec::new();
     let plan = with_all_roots(plan_of(&c.plan));
-    let bytes = match enc::encode(&plan, &c.enc) {
+    let mut bytes = match enc::encode(&plan, &c.enc) {
         Ok(b) => b,
         Err(e) => crate::evidence::machinery_failure(&format!("spec encoder failed: {} [{:?}]", e, c.plan)),
     };
+    // "The remaining two bits have no meaning" (Faces) / "the remaining five bits" (Axes): set them
+    if let PlanDesc::DocRow { which } = &c.plan {
+        if *which >= 3 {
+            let mut p = 32;
+            let mut patched = false;
+            while p + 16 <= bytes.len() {
+                let len = u32::from_le_bytes(bytes[p + 8..p + 12].try_into().unwrap()) as usize;
+                let end = p + 16 + len;
+                if &bytes[p..p + 4] == b"PROP" && len >= 11 && &bytes[p + 16 + 4..p + 16 + 9] == [1, 0, 0, 0, b'V'] {
+                    bytes[end - 1] |= if *which == 3 { 0xc0 } else { 0xf8 };
+                    patched = true;
+                }
+                p = end;
+            }
+            if !patched {
+                crate::evidence::machinery_failure("doc-row: could not find the value byte to set spare bits in");
+            }
+        }
+    }
     // the spec decoder must read the spec encoder's file as the plan (conformance of the two halves)
     let sw = if c.enc.switches_impl { Switches { uniqueid_impl: true, faces_impl: true, content_impl: true } } else { Switches::default() };
     match specbin::decode(&bytes, sw).and_then(|f| {
@@ -549,10 +574,12 @@ pub fn judge(c: &Case04) -> Vec<(String, String)> {
         Err(e) => crate::evidence::machinery_failure(&format!("spec decoder rejects the spec encoder's file: {} [{:?} / {}]", e, c.plan, c.dim)),
     }
     let res = crate::evidence::guarded(|| rbx_binary::from_reader(bytes.as_slice()).map_err(|e| e.to_string()));
-    let doc_row = matches!(c.plan, PlanDesc::DocRow { .. }) && !c.enc.switches_impl;
+    let doc_row = matches!(c.plan, PlanDesc::DocRow { which } if !c.enc.switches_impl || which >= 3);
     let row_name = match c.plan {
         PlanDesc::DocRow { which: 0 } => "UniqueId",
         PlanDesc::DocRow { which: 1 } => "Faces",
+        PlanDesc::DocRow { which: 3 } => "Faces-spare-bits",
+        PlanDesc::DocRow { which: 4 } => "Axes-spare-bits",
         _ => "Content.SourceTypes",
     };
     match res {
@@ -575,6 +602,21 @@ pub fn judge(c: &Case04) -> Vec<(String, String)> {
                 }
                 Ok(Err(e)) => out.push(("c04|reader-delivery|rejected".into(), format!("a conformant file ({}) is rejected when the reader delivers 5 bytes per call: {}", c.dim, e))),
                 Err((s, m)) => out.push((format!("c04|panic|{}", crate::evidence::panic_signature(&s, &m)), format!("panic with a 5-bytes-per-call reader: {} {}", s, m))),
+            }
+            // one long-lived `Deserializer` value decodes every file this process sees (thousands,
+            // with the same class and property names under other wire types, other classes, other
+            // numberings): what it gives must not depend on what it decoded before
+            thread_local! {
+                static SHARED: rbx_binary::Deserializer<'static> = rbx_binary::Deserializer::new();
+            }
+            match crate::evidence::guarded(|| SHARED.with(|d| d.deserialize(bytes.as_slice()).map_err(|e| e.to_string()))) {
+                Ok(Ok(d2)) => {
+                    if canon_forest(&d2, d2.root().children(), FloatMode::Exact) != forest {
+                        out.push(("c04|reused-deserializer|different-dom".into(), format!("a conformant file ({}) decodes differently through a Deserializer value that has decoded other files before [{:?}]", c.dim, c.plan)));
+                    }
+                }
+                Ok(Err(e)) => out.push(("c04|reused-deserializer|rejected".into(), format!("a conformant file ({}) is rejected by a Deserializer value that has decoded other files before: {} [{:?}]", c.dim, e.chars().take(200).collect::<String>(), c.plan))),
+                Err((s, m)) => out.push((format!("c04|panic|{}", crate::evidence::panic_signature(&s, &m)), format!("panic in a reused Deserializer: {} {}", s, m))),
             }
             let expected = expected_for(&plan, Codec::Binary, XmlMode::Default, FloatMode::Exact);
             let diffs = diff_forest(&expected, &forest, &|_, _, _| false);
@@ -626,7 +668,7 @@ pub fn check(run: &Run) -> Value {
         "doc_vectors_reproduced_by_spec_codec": vectors,
         "samples": total.samples.iter().map(|s| serde_json::from_str::<Value>(s).unwrap()).collect::<Vec<_>>(),
         "exhaustive": true,
-        "rule": "for every logical DOM of the reduced topology sweep (forests <= 3/4 nodes x class patterns over {unknown class with String/Int32/Float32/Ref/SharedString/Content, Part via serialized names size/Color3uint8/Anchored/Tags/AttributesSerialize, Folder}) the independent encoder emits the base encoding and, one degree of freedom at a time, every alternative the document allows: compression per chunk over {none, LZ4 literal-only, LZ4, zstd raw blocks, zstd} (all uniform assignments, every single-chunk deviation, thorough: double), every INST order, PROP orders (all permutations up to 5 chunks, else rotations/reversal/adjacent swaps), every class-id permutation and offsets {7,1000,2^31-1}, every referent permutation plus sparse/offset/large numberings, every PRNT order that keeps sibling order, META, an unknown chunk at every boundary (every storage form; payloads that look like text, a Zstandard frame or its magic, an LZ4 frame, the END text, the file magic), class ids whose bytes look like compression magics or chunk names, reversed columns, a PROP chunk cut after its name or with type ids {00,0f,11,23,ff} before/after the real ones, service object format; Int32-for-Int64 and Float32-for-Float64 over the full numeric alphabets (pairs). Each file is first read by the spec decoder (the two halves of the spec codec must agree) and then by rbx_binary::from_reader, whose DOM must equal the plan",
+        "rule": "for every logical DOM of the reduced topology sweep (forests <= 3/4 nodes x class patterns over {unknown class with String/Int32/Float32/Ref/SharedString/Content, Part via serialized names size/Color3uint8/Anchored/Tags/AttributesSerialize, Folder}) the independent encoder emits the base encoding and, one degree of freedom at a time, every alternative the document allows: compression per chunk over {none, LZ4 literal-only, LZ4, zstd raw blocks, zstd} (all uniform assignments, every single-chunk deviation, thorough: double), every INST order, PROP orders (all permutations up to 5 chunks, else rotations/reversal/adjacent swaps), every class-id permutation and offsets {7,1000,2^31-1}, every referent permutation plus sparse/offset/large numberings, every PRNT order that keeps sibling order, META, an unknown chunk at every boundary (every storage form; payloads that look like text, a Zstandard frame or its magic, an LZ4 frame, the END text, the file magic), class ids whose bytes look like compression magics or chunk names, reversed columns, a PROP chunk cut after its name or with type ids {00,0f,11,23,ff} before/after the real ones, service object format; Int32-for-Int64 and Float32-for-Float64 over the full numeric alphabets (pairs). Each file is first read by the spec decoder (the two halves of the spec codec must agree) and then by rbx_binary::from_reader, whose DOM must equal the plan, by a 5-bytes-per-call reader, and by one Deserializer value reused for every file a worker process sees",
     })
 }
 
